@@ -122,7 +122,7 @@ class Gen:
 
     def cols_of(self, st, ty, kinds=("e", "w", "a"), allow_hidden=True):
         cs = [c for c in st.vis if c.ty == ty and c.kind in kinds]
-        if allow_hidden and self.r.random() < 0.3:
+        if allow_hidden and self.r.random() < self.p.get("hidden_refs", 0.3):
             cs = cs + [c for c in st.hidden if c.ty == ty and c.kind in kinds]
         return cs
 
